@@ -71,28 +71,25 @@ impl binrw::BinRead for Mso {
         let ucid = ConnectionId::read_options(reader, endian, ())?;
         let plid = PlayerId::read_options(reader, endian, ())?;
         let usertype = MsoUserType::read_options(reader, endian, ())?;
+        let pos = reader.stream_position()?;
         let textstart = u8::read_options(reader, endian, ())?;
-        let (textstart, msg) = if textstart > 0 {
-            let name = Vec::<u8>::read_options(
-                reader,
-                endian,
-                binrw::VecArgs {
-                    count: textstart as usize,
-                    inner: (),
-                },
-            )?;
 
-            let msg: Vec<u8> = binrw::helpers::until_eof(reader, endian, ())?;
+        // The name and the text share one codepage state, so the message has to be decoded as a
+        // whole. textstart is then moved to the same position within the decoded message.
+        let raw: Vec<u8> = binrw::helpers::until_eof(reader, endian, ())?;
+        let raw = strip_trailing_nul(&raw);
+        let msg = codepages::to_lossy_string(raw).to_string();
 
-            let name = codepages::to_lossy_string(strip_trailing_nul(&name));
-            let msg = codepages::to_lossy_string(strip_trailing_nul(&msg));
-            (name.len() as u8, format!("{name}{msg}"))
+        let textstart = if textstart > 0 {
+            let name = raw.get(..textstart as usize).unwrap_or(raw);
+            u8::try_from(codepages::to_lossy_string(name).len()).map_err(|_| {
+                binrw::Error::AssertFail {
+                    pos,
+                    message: "textstart does not fit once the message is decoded".into(),
+                }
+            })?
         } else {
-            let msg: Vec<u8> = binrw::helpers::until_eof(reader, endian, ())?;
-            (
-                0_u8,
-                codepages::to_lossy_string(strip_trailing_nul(&msg)).to_string(),
-            )
+            0_u8
         };
 
         Ok(Self {
@@ -124,10 +121,19 @@ impl binrw::BinWrite for Mso {
         // if we need to encode the string, we need to move the textstart transparently for the
         // user
         let textstart = if self.textstart > 0 {
-            let name = &self.msg[..self.textstart as usize];
-            let textstart = codepages::to_lossy_bytes(name).len();
-
-            textstart as u8
+            let pos = writer.stream_position()?;
+            let name = self.msg.get(..self.textstart as usize).ok_or_else(|| {
+                binrw::Error::AssertFail {
+                    pos,
+                    message: "textstart is not a character boundary within msg".into(),
+                }
+            })?;
+            u8::try_from(codepages::to_lossy_bytes(name).len()).map_err(|_| {
+                binrw::Error::AssertFail {
+                    pos,
+                    message: "textstart does not fit once the message is encoded".into(),
+                }
+            })?
         } else {
             self.textstart
         };
